@@ -313,6 +313,15 @@ func TestC12Immutable(t *testing.T) {
 		}
 		scribbleOutputs(it)
 		check("overwrote every slice returned by the accessors and serializers")
+		// the decoder moves on to other inputs - rejected and accepted ones - while the caller keeps
+		// the item: whatever the decoder recycles internally, a kept item does not change
+		for i := 0; i < 3; i++ {
+			_, _ = secs2.Decode([]byte{0x01, 0x03, 0x41, 0x02, 'a'})                                   // a list whose children are missing: rejected
+			_, _ = secs2.Decode([]byte{0x01, 0x02, 0x41, 0x03, 'n', 'e', 'w', 0xa5, 0x02, 0xff, 0xfe}) // accepted
+			_, _ = secs2.DecodeOwned([]byte{0x21, 0x05, 1, 2})                                         // truncated: rejected
+			_, _ = secs2.DecodeOwned([]byte{0x01, 0x01, 0x21, 0x03, 9, 9, 9})                          // accepted
+		}
+		check("went on to decode other inputs (some of them rejected)")
 
 		// ---- message over the item ----
 		stream, function := byte(rapid.IntRange(0, 127).Draw(rt, "stream")), byte(rapid.IntRange(0, 255).Draw(rt, "function"))
